@@ -528,6 +528,25 @@ MUTANTS = [
     dict(name='c04-reset-elsewhere', prop='C04', clause='D2', edits=[
         (TGC_CPP, "bool task_group_context_impl::is_group_execution_cancelled(const d1::task_group_context& ctx) {\n",
          "bool task_group_context_impl::is_group_execution_cancelled(const d1::task_group_context& ctx) {\n    if (ctx.my_parent && !ctx.my_parent->my_cancellation_requested.load(std::memory_order_relaxed)) const_cast<d1::task_group_context&>(ctx).my_cancellation_requested.store(0, std::memory_order_relaxed);\n")]),
+    dict(name='c03-seed3-filter-input-destroyed-by-guard', prop='C03', clause='D10', edits=[('include/oneapi/tbb/detail/_pipeline_filters.h',
+        """        tbb::detail::invoke(my_body, std::move(input_helper::token(temp_input)));
+        input_helper::destroy_token(temp_input);
+        return nullptr;""", """        auto input_guard = make_raii_guard([&] { input_helper::destroy_token(temp_input); });
+        tbb::detail::invoke(my_body, std::move(input_helper::token(temp_input)));
+        return nullptr;""")]),
+    dict(name='c03-filter-input-never-destroyed', prop='C03', clause='D10', edits=[('include/oneapi/tbb/detail/_pipeline_filters.h',
+        """        tbb::detail::invoke(my_body, std::move(input_helper::token(temp_input)));
+        input_helper::destroy_token(temp_input);
+        return nullptr;""", """        tbb::detail::invoke(my_body, std::move(input_helper::token(temp_input)));
+        return nullptr;""")]),
+    dict(name='c03-parked-items-dropped-at-teardown', prop='C03', clause='D10', edits=[(PP_CPP,
+        "            b->finalize_parked_items(*f);\n", "")]),
+    dict(name='c03-parked-items-finalized-regardless-of-validity', prop='C03', clause='D10', edits=[(PP_CPP,
+        "            if( item.is_valid ) {\n                if( item.my_object )\n                    owner.finalize(item.my_object);\n                item.reset();\n            }",
+        "            if( item.my_object )\n                owner.finalize(item.my_object);\n            item.reset();")]),
+    dict(name='c03-filter-result-not-stored', prop='C03', clause='D10', edits=[(PP_CPP,
+        "        my_object = (*my_filter)(my_object);\n        if( my_filter->is_serial() )\n            my_filter->my_input_buffer->try_to_spawn_task_for_next_token(*this, ed);",
+        "        void* produced = (*my_filter)(my_object);\n        if( my_filter->is_serial() )\n            my_filter->my_input_buffer->try_to_spawn_task_for_next_token(*this, ed);\n        if( produced ) my_object = produced;")]),
     # ---------------------------------------------------------------- C05
     dict(name='c05-simple-do-while', prop='C05', clause='D1', edits=[
         (PT_H, "        while( range.is_divisible() )\n            start.offer_work( split_obj, ed );", "        do {\n            start.offer_work( split_obj, ed );\n        } while( range.is_divisible() );")]),
@@ -1020,6 +1039,13 @@ BENIGN = [
 }""", """        ctx.my_cancellation_requested.fetch_or(ctx.my_parent->my_cancellation_requested.load(std::memory_order_relaxed), std::memory_order_relaxed);
     }
 }""")]),
+    dict(name='c03-b-filter-input-destroyed-via-helper-lambda', prop='C03', edits=[('include/oneapi/tbb/detail/_pipeline_filters.h',
+        """        tbb::detail::invoke(my_body, std::move(input_helper::token(temp_input)));
+        input_helper::destroy_token(temp_input);
+        return nullptr;""", """        auto release_input = [&] { input_helper::destroy_token(temp_input); };
+        tbb::detail::invoke(my_body, std::move(input_helper::token(temp_input)));
+        release_input();
+        return nullptr;""")]),
     dict(name='c05-b-ratio-operands-commuted', prop='C05', edits=[('include/oneapi/tbb/blocked_range2d.h',
         "        if ( my_rows.size()*double(my_cols.grainsize()) < my_cols.size()*double(my_rows.grainsize()) ) {",
         "        if ( double(my_cols.grainsize())*my_rows.size() < double(my_rows.grainsize())*my_cols.size() ) {")]),
